@@ -1011,6 +1011,27 @@ def suppress(ctx: Any) -> List[Ob]:
     # the looked-up record is the one equal to `record` and a miss means not suppressed
     src_ok = any(isinstance(st, ast.Assign) and isinstance(st.value, ast.Call) and call_name(st.value) == 'get' and [norm(a) for a in st.value.args] == [rec] and norm(st.targets[0]) == lookup_var for st in walk_local_ordered(f.node))
     obs.append(ob(R, f, f'{lookup_var} = lookup.get({rec})', 'the known answer consulted is the one equal to the record (identity per C20)', src_ok))
+    # ... as a table: not listed -> not suppressed; listed -> suppressed exactly when the listed TTL is above half
+    for listed, k_ttl in ((False, 0), (True, 61), (True, 60), (True, 10)):
+        atoms_k: Dict[str, Any] = {'.get()': Sym('known') if listed else None, f'{rec}.ttl': 120, f'{lookup_var}.ttl': k_ttl}
+        oc_k, und_k = traces(ctx, f, atoms_k, lambda n, e: [], loop_bound=1)
+        rets_k = {x[1] for t in oc_k for x in t if isinstance(x, tuple) and x[0] == 'ret'}
+        want_k = listed and k_ttl > 60
+        obs.append(ob(R, f, f'record with TTL 120 {"listed with TTL " + str(k_ttl) if listed else "not listed"}', f'suppresses() is {want_k}', rets_k == {want_k} and not und_k, f'returns {sorted(map(str, rets_k))}; undecided {und_k}'))
+    # the table the look-up reads holds every known answer of the packet, under itself, built once
+    gl = prog.func('zeroconf._dns.DNSRRSet._get_lookup')
+    gme = gl.params[0]
+    comps_l = [v for _, st_ in attr_stores(gl.node) if isinstance(st_, ast.Assign) and self_attr(st_.targets[0], gme) == '_lookup' for v in [st_.value] if isinstance(v, ast.DictComp)]
+    ok_l = len(comps_l) == 1 and len(comps_l[0].generators) == 1 and not comps_l[0].generators[0].ifs and self_attr(comps_l[0].generators[0].iter, gme) == '_records' and norm(comps_l[0].key) == norm(comps_l[0].value) == norm(comps_l[0].generators[0].target)
+    for built in (False, True):
+        oc_l, _ = traces(ctx, gl, {f'{gme}._lookup': ({'r': 'r'} if built else None)}, lambda n, e: ['BUILD'] if n.kind == 'stmt' and any(self_attr(t_, gme) == '_lookup' for t_, _ in attr_stores(n.ast)) else [], loop_bound=1)
+        builds = {strip_ret(t).count('BUILD') for t in oc_l}
+        ok_l = ok_l and builds == ({0} if built else {1})
+    rets_l = [r for r in walk_local_ordered(gl.node) if isinstance(r, ast.Return) and r.value is not None]
+    obs.append(ob(R, gl, comps_l[0] if comps_l else '{record: record for record in self._records}', 'the known-answer table maps every known answer of the packet to itself, is built on first use and then reused', ok_l and all(self_attr(r.value, gme) == '_lookup' for r in rets_l) and bool(rets_l)))
+    ctor_rr = prog.func('zeroconf._dns.DNSRRSet.__init__')
+    st_rr = [st_ for t_, st_ in attr_stores(ctor_rr.node) if self_attr(t_, ctor_rr.params[0]) == '_records' and isinstance(st_, ast.Assign)]
+    obs.append(ob(R, ctor_rr, st_rr[0] if st_rr else 'self._records = records', 'the set keeps the known answers it is given', len(st_rr) == 1 and norm(st_rr[0].value) == ctor_rr.params[1]))
     g = prog.func('zeroconf._dns.DNSRecord._suppressed_by_answer')
     e = single_return_expr(g)
     me, other = g.params[0], g.params[1]
